@@ -6,6 +6,7 @@
 //@ assume: (now backed by the Verus unit C10.cont_stopped, which proves the per-thread injection discipline of the real cont_stopped_ex / cont_stopped on a sequence model of the thread table) TraceeCtl::cont_stopped_ex(req, exclude) continues every stopped thread not in `exclude` and delivers req.1 to thread req.0 when that thread is continued, nobody else receives a signal (its body iterates a std HashMap with a closure: not verified); TraceeCtl::cont_stopped delivers nothing. The deliveries are recorded in a ghost sequence `delivered` on the TraceeCtl shim
 //@ assume: waitpid / apply_new_status / group_stop_interrupt deliver no signal; apply_new_status may append at most one (thread, signal) pair at the back of the queue, for a thread that is not already queued (a thread in signal-delivery-stop cannot receive a second signal-stop before it is resumed: kernel semantics); when it reports SignalStop(_, s) it has queued s unless s is SIGINT (proved for the arm itself by the Kani unit C10.push)
 //@ assume: recorded precondition R_distinct: the threads in the queue are pairwise distinct (see above); termination is not claimed (the loop waits for the debuggee)
+//@ assume: (asserted at the call, ghost only) every thread that still has a queued signal is kept stopped while another signal is injected: resuming it without its signal would make the kernel discard that signal
 //@ notcovered: signals arriving inside single_step, step/stepi resumption paths, multi-thread interleavings, whether the kernel delivers an injected signal exactly once
 use vstd::prelude::*;
 use std::collections::VecDeque;
@@ -140,6 +141,12 @@ impl Tracer {
         ensures forall|p: Pid| r.pids@.contains(p) <==> #[trigger] queued(self.inject_signal_queue@, p),
     { unimplemented!() }
 
+    /// `self.inject_signal_queue.iter().skip(n).map(|(pid, _)| *pid).collect()`: the pids of the queue WITHOUT its first n entries
+    #[verifier::external_body]
+    fn outline_queued_pids_skip(&self, n: usize) -> (r: Excluded)
+        ensures forall|p: Pid| r.pids@.contains(p) <==> #[trigger] queued(self.inject_signal_queue@.skip(n as int), p),
+    { unimplemented!() }
+
     /// `self.inject_signal_queue.front().copied()`
     #[verifier::external_body]
     fn outline_front(&self) -> (r: Option<(Pid, Signal)>)
@@ -171,7 +178,9 @@ impl Tracer {
 //@   ensures E_ledger: r is Ok ==> prefix_of(ledger(old(self)), ledger(final(self)))
 //@   ensures E_distinct: r is Ok ==> distinct_pids(final(self).inject_signal_queue@)
 //@   ensures E_restop: r is Ok && old(self).inject_signal_queue@.len() >= 2 ==> final(self).tracee_ctl.delivered@ == old(self).tracee_ctl.delivered@.push(old(self).inject_signal_queue@[0]) && r->Ok_0 == StopReason::SignalStop(old(self).inject_signal_queue@[1].0, old(self).inject_signal_queue@[1].1) && final(self).inject_signal_queue@ == old(self).inject_signal_queue@.subrange(1, old(self).inject_signal_queue@.len() as int)
+//@   outline O_excl_skip: `self.inject_signal_queue .iter() .skip($n) .map(|(pid, _)| *pid) .collect()` => `self.outline_queued_pids_skip($n)`
 //@   outline O_excl: `self.inject_signal_queue .iter() .map(|(pid, _)| *pid) .collect()` => `self.outline_queued_pids()`
+//@   rewrite W_keep_stopped: `self.tracee_ctl.cont_stopped_ex( Some(req), $e, )?;` => `let excl_ = $e; proof { assert(forall|p: Pid| #[trigger] queued(self.inject_signal_queue@, p) ==> excl_.pids@.contains(p)); } self.tracee_ctl.cont_stopped_ex(Some(req), excl_)?;`
 //@   outline O_front: `self.inject_signal_queue.front().copied()` => `self.outline_front()`
 //@   rewrite W_pid: `Pid::from_raw(-1)` => `Pid(-1)`
 //@   outline O_multi: `self.tracee_ctl.cont_stopped().map_err(MultipleErrors)?` => `self.tracee_ctl.cont_stopped()?`
